@@ -21,23 +21,25 @@ import (
 // seed, so certificates are byte-identical across processes and replays. Validity 1990..2100
 // because the bubble clock starts at 2000-01-01.
 type PKI struct {
-	CA, OtherCA         *x509.Certificate
-	CAKey, OtherCAKey   crypto.Signer
-	Roots, OtherRoots   *x509.CertPool
-	ServerECDSA         tls.Certificate // CN/SAN "server.test", signed by CA
-	ServerRSA           tls.Certificate
-	ServerEd25519       tls.Certificate
-	ServerECDSA384      tls.Certificate
-	ClientECDSA         tls.Certificate // CN "client.test", signed by CA, ExtKeyUsageClientAuth
-	ClientRSA           tls.Certificate
-	ClientEd25519       tls.Certificate
-	ServerWrongCA       tls.Certificate // "server.test" signed by OtherCA
-	ServerWrongName     tls.Certificate // "evil.test" signed by CA
-	ServerExpired       tls.Certificate // NotAfter 1995
-	ClientWrongCA       tls.Certificate
-	ClientExpired       tls.Certificate
-	ServerECDSA2        tls.Certificate // a second valid server identity (different key)
-	ClientECDSA2        tls.Certificate
+	CA, OtherCA       *x509.Certificate
+	CAKey, OtherCAKey crypto.Signer
+	Roots, OtherRoots *x509.CertPool
+	ServerECDSA       tls.Certificate // CN/SAN "server.test", signed by CA
+	ServerRSA         tls.Certificate
+	ServerEd25519     tls.Certificate
+	ServerECDSA384    tls.Certificate
+	ClientECDSA       tls.Certificate // CN "client.test", signed by CA, ExtKeyUsageClientAuth
+	ClientRSA         tls.Certificate
+	ClientEd25519     tls.Certificate
+	ServerWrongCA     tls.Certificate // "server.test" signed by OtherCA
+	ServerWrongName   tls.Certificate // "evil.test" signed by CA
+	ServerExpired     tls.Certificate // NotAfter 1995
+	ClientWrongCA     tls.Certificate
+	ClientExpired     tls.Certificate
+	ServerECDSA2      tls.Certificate // a second valid server identity (different key)
+	ClientECDSA2      tls.Certificate
+	ServerRSAAlt      tls.Certificate // RSA key, CN/SAN "rsa.server.test" (generated last: earlier credentials keep their bytes)
+	ServerECDSAAlt    tls.Certificate // ECDSA key, CN/SAN "ec.server.test"
 }
 
 var (
@@ -142,5 +144,7 @@ func buildPKI() *PKI {
 	p.ServerExpired = mkLeaf(p.CA, p.CAKey, mustECDSA(elliptic.P256()), "server.test", false, notBefore, old)
 	p.ClientWrongCA = mkLeaf(p.OtherCA, p.OtherCAKey, mustECDSA(elliptic.P256()), "client.test", true, notBefore, notAfter)
 	p.ClientExpired = mkLeaf(p.CA, p.CAKey, mustECDSA(elliptic.P256()), "client.test", true, notBefore, old)
+	p.ServerRSAAlt = mkLeaf(p.CA, p.CAKey, mustRSA(), "rsa.server.test", false, notBefore, notAfter)
+	p.ServerECDSAAlt = mkLeaf(p.CA, p.CAKey, mustECDSA(elliptic.P256()), "ec.server.test", false, notBefore, notAfter)
 	return p
 }
